@@ -13,3 +13,4 @@ import Scfg.Spec.GraphDefs
 import Scfg.Spec.IterSpec
 import Scfg.Model.Bytecode
 import Scfg.Model.Dispatch
+import Scfg.Spec.RenderSpec
